@@ -331,6 +331,46 @@ def run(ctx, out):
     out.rule = ("merge: all sorted lists over a small offset universe + random lists (sorted/adjacent/touching/overlapping/"
                 "unsorted/near-2^64); non-trivial = >=2 extents with a touching or adjacent pair. files: real ext4 files "
                 "with 0..97 data ranges (FIEMAP pages of 32), data at start/end, odd sizes, data beyond 2^31 / 2^32 / 2^33 in sparse files of up to 8 GiB; non-trivial = >=1 data range. "
+                "refused answers: lseek / FIEMAP failing with EINVAL EIO ENOSYS EOVERFLOW EBADF / EIO EINVAL EBADR ENOMEM at the n-th call of a walk. "
                 "distinct = distinct input list / layout.")
     run_merge(ctx, out)
     run_files(ctx, out)
+    run_refused(ctx, out)
+
+
+def run_refused(ctx, out):
+    """The kernel REFUSES an answer (lseek SEEK_DATA / SEEK_HOLE with EINVAL, EIO, ENOSYS, EOVERFLOW, EBADF; the FIEMAP ioctl with
+    EIO, EINVAL, EBADR, ENOMEM) at the n-th call of a walk over a sparse file: a refusal is not `no more data` — either the
+    function reports an error, or what it reports still hides no data."""
+    import xcp
+    rng = ctx.rng
+    quick = ctx.tier == "quick"
+    sup = core.build_sup()
+    d = ctx.work.fresh("c19refused")
+    B = 4096
+    segs = [(0, 2 * B), (40 * B, 43 * B), (100 * B, 100 * B + 777), (170 * B, 171 * B)]
+    size = 200 * B + 5
+    p = os.path.join(d, "sparse.bin")
+    fsutil.make_file(p, size, segs, tag=3)
+    for (cmd, sysn, errnos, nths) in [("segments", "lseek", (22, 5, 38, 75, 9), (1, 2, 3, 5, 6)), ("extents", "ioctl", (5, 22, 53, 12), (1,))]:
+        for errno in errnos:
+            for nth in (nths if not quick else nths[:3]):
+                r = xcp.run_supervised(sup, [ctx.bins["probe"], cmd, p], d, d, rules=[("fail", errno, 0, sysn, nth, "=" + p)], tag="rf", timeout_ms=20000)
+                fired = any(e.get("inj") for e in r.trace)
+                out.case(("refused", cmd, errno, nth), nontrivial=fired)
+                out.count("refused_answers_%s" % cmd)
+                line = (r.stdout.split("\n") + [""])[0]
+                rep = dict(fn="next_sparse_segments walk" if cmd == "segments" else "map_extents", size=size, data=segs, refused=(sysn, nth, errno), impl=line)
+                if not fired:
+                    continue
+                if line.startswith("OK") or line.startswith("SOME"):
+                    if line.startswith("OK"):
+                        nums = [int(t) for t in line.split()[1:]]
+                        ranges = [(nums[i], nums[i + 1]) for i in range(0, len(nums), 2)]
+                    else:
+                        ranges = [(s_, e_) for s_, e_, _ in parse_exts(line)]
+                    ok, bad = fsutil.zero_outside(p, ranges, size)
+                    if not ok:
+                        out.violation("%s hides data after the kernel refused call #%d of %s with errno %d: byte %d is non-zero and outside every "
+                                      "reported range (a refusal was read as `no more data`)" % (rep["fn"], nth, sysn, errno, bad), dict(rep, bad_offset=bad))
+
